@@ -39,6 +39,16 @@ Theorem C02_text_transparent_draws_nothing : forall F s ts pos text,
   cs_is_transparent s = true -> fst (text_draw F s ts pos text) = [].
 Proof. exact text_transparent_draws_nothing. Qed.
 
+(* NULL_FONT (default font of MonoTextStyleBuilder::new()): nothing is drawn, the box is the zero-sized rectangle at the position *)
+Theorem C02_text_null_font_in_bbox : forall idx atlas s ts pos text q,
+  render (fst (text_draw (MFont (bf_font null_font) idx atlas) s ts pos text)) q <> None ->
+  contains (text_bbox (bf_font null_font) s ts pos text) q = true.
+Proof. exact null_font_text_in_bbox. Qed.
+
+Theorem C02_text_null_font_bbox : forall s ts pos text,
+  text_bbox (bf_font null_font) s ts pos text = R pos (S 0 0).
+Proof. exact null_font_bbox. Qed.
+
 (* non-vacuity: an underlined, struck-through two-line text whose decorations reach the box edges *)
 Example C02_text_example :
   let F := MFont (Font 8 6 4 3 1 2 (Deco 4 2) (Deco 1 2)) (fun c => str_index [0; 97; 100] 1 c) (fun x y => Z.even (x + y)) in
